@@ -13,7 +13,7 @@ import sys
 
 SEED = sys.argv[1] if len(sys.argv) > 1 else '/tmp/seed-out'
 BASE_NINJA = '/repo/_build/ninja'
-NW = 3
+NW = 1
 
 
 def sh(cmd, cwd=None, timeout=600):
